@@ -134,6 +134,46 @@ def gen_int_regs(full=True, sample=None):
     return out
 
 
+def gen_int_regs_kw(rnd, n_pairs=4000):
+    """Register forms with a (redundant) size keyword in front of a register operand - `inc byte sil`, `mov qword rax, rbx`,
+    `movzx eax, byte ah`: the library accepts this spelling (nasm does too); the keyword agrees with the register's width."""
+    out = []
+    for mn in UNARY:
+        for w in (8, 16, 32, 64):
+            for a in (regs8() if w == 8 else BYW[w]):
+                out.append(mk("unary_r_kw", mn, "r", "%s %s %s" % (mn, KW[w], a), [R(a)], w))
+    for mn in SETCC[::3]:
+        for a in regs8():
+            out.append(mk("setcc_r_kw", mn, "r", "%s byte %s" % (mn, a), [R(a)], 8))
+    for mn in SHIFT_CL:
+        for w in (8, 16, 32, 64):
+            for a in (regs8() if w == 8 else BYW[w]):
+                out.append(mk("shift_cl_kw", mn, "rr", "%s %s %s, cl" % (mn, KW[w], a), [R(a), R("cl")], w))
+    pairs = []
+    for mn in ALU + ["mov", "test", "xchg"]:
+        for w in (8, 16, 32, 64):
+            rs = regs8() if w == 8 else BYW[w]
+            for a in rs:
+                for b in rs:
+                    if w == 8 and not ok8(a, b):
+                        continue
+                    if mn == "xchg" and a == b:
+                        continue
+                    pairs.append((mn, w, a, b))
+    # all byte pairs that involve spl/bpl/sil/dil or ah/ch/dh/bh (where the REX rules bite), a sample of the rest
+    special = [p for p in pairs if p[1] == 8 and (p[2] in R8[4:8] or p[3] in R8[4:8] or p[2] in R8H or p[3] in R8H)]
+    rest = [p for p in pairs if p not in set(special)]
+    for (mn, w, a, b) in special + rnd.sample(rest, min(len(rest), n_pairs)):
+        out.append(mk("alu_rr_kw", mn, "rr", "%s %s %s, %s" % (mn, KW[w], a, b), [R(a), R(b)], w))
+    for dw in (16, 32, 64):
+        for a in BYW[dw][::3]:
+            for b in regs8():
+                if b in R8H and (regnum(a) >= 8 or dw == 64):
+                    continue
+                out.append(mk("movzx_kw", "movzx", "rr", "movzx %s, byte %s" % (a, b), [R(a), R(b)], dw, srcw=8))
+    return out
+
+
 def gen_bmi_regs(corners_only=False, rnd=None, frac=1.0):
     """BMI2 / ADX three-register VEX forms over all r32^3 and r64^3."""
     out = []
